@@ -12,6 +12,7 @@ import itertools
 import json
 import linecache
 import re
+import tempfile
 import threading
 
 ID = "C18"
@@ -28,7 +29,7 @@ REQUIRED = {"saves_during_stream": 5, "rejected_streams": 5, "same_thread_sequen
 BUDGET_S = {"quick": 170, "thorough": 2400}
 
 KINDS = ["step", "steps2", "steps3", "stream", "abort", "error", "abort0"]
-PATTERN = re.compile(r"session_state|\.lock\(|\.unlock\(|is_locked\(|run_step\(|try_lock\(|release\(|call_on_close|_lock_guard")
+PATTERN = re.compile(r"session_state|\.lock\(|\.unlock\(|is_locked\(|run_step\(|try_lock\(|release\(|call_on_close|_lock_guard|\.load_instance\(|\.reconstruct_instance\(")
 START, STOP, DT = 1.0, 6.0, 1.0
 
 
@@ -76,6 +77,10 @@ def gen_cases(tier, seed):
         for after in (["step"], ["steps2"], ["stream"], ["step-nobody", "stream-nobody"]):
             cases.append(dict(mode="samethread", first=None, read=0, between=["step", bad] + list(after), seed=seed))
             cases.append(dict(mode="samethread", first=None, read=0, between=[bad] + list(after), adapter=True, seed=seed))
+    # the instance lives only in its state file (as after a time-out): the concurrent requests are the first ones to bring it back
+    for p_ in ((k["step"], k["step"]), (k["steps2"], k["step"]), (k["stream"], k["step"])):
+        for r in range(4):
+            cases.append(dict(kinds=list(p_), stride=r, K=4, mode="all1", restore=True, seed=seed))
     if tier == "quick":
         # three preemptions at lock-related lines with the first among the first eight alternatives (first use of the instance's lock)
         for r in range(8):
@@ -167,15 +172,20 @@ def do_request(client, iid, kind, out, idx):
         out[idx] = (kind, 599, repr(e)[:200])
 
 
-def one_schedule(kinds, schedule):
+def one_schedule(kinds, schedule, restore=False):
     from vlib import srv
     from vlib.linesched import LineScheduler
     from BPTK_Py.bptk import bptk as B
-    app = srv.make_server(srv.bptk_factory(start=START, stop=STOP, dt=DT))
+    tmp = tempfile.mkdtemp(prefix="c18r_", dir=".") if restore else None
+    app = srv.make_server(srv.bptk_factory(start=START, stop=STOP, dt=DT), state_dir=tmp)
     c0 = app.test_client()
     iid = json.loads(c0.post("/start-instance", json={}).get_data(as_text=True))["instance_uuid"]
     c0.post("/%s/begin-session" % iid, json={"scenario_managers": [srv.MG], "scenarios": [srv.SC], "equations": ["stock", "rate"]})
     inst = app._instance_manager._instances[iid]["instance"]
+    if restore:
+        # the instance lives only in its state file (as after a time-out): the concurrent requests are the first ones to bring it back
+        app._instance_manager._delete_instance(iid)
+        inst.destroy()
     # monitor: log of run_step executions (thread index, clock before, clock after) with a global sequence number
     calls = []
     orig = B.run_step
@@ -213,10 +223,16 @@ def one_schedule(kinds, schedule):
                 t.join(40)
         follow = c0.post("/%s/run-step" % iid, json={"settings": {}})
         follow = (follow.status_code, follow.get_data(as_text=True)[:200])
+        if restore:
+            live = app._instance_manager._instances.get(iid)
+            inst = live["instance"] if live else inst
         final_clock = inst.session_state["step"] if inst.session_state else None
     finally:
         B.run_step = orig
         srv.destroy_server(app)
+        if tmp:
+            import shutil
+            shutil.rmtree(tmp, True)
     return out, calls, follow, final_clock, sched
 
 
@@ -452,7 +468,7 @@ def run_case(case):
     rng = random.Random(hash((tuple(kinds), case["stride"], case["seed"])) & 0xffffff)
 
     def attempt(schedule):
-        out, calls, follow, final_clock, sched = one_schedule(kinds, schedule)
+        out, calls, follow, final_clock, sched = one_schedule(kinds, schedule, restore=bool(case.get("restore")))
         counters["schedules"] = counters.get("schedules", 0) + 1
         counters["yield_points_hit"] = counters.get("yield_points_hit", 0) + sched.decisions
         if sched.preemptions_applied:
